@@ -11,6 +11,7 @@ import (
 	"io"
 	"net/http"
 	"net/url"
+	"os"
 	"strings"
 	"time"
 
@@ -424,7 +425,11 @@ func (w *world) doWS(r *hx.Rand, kind, feats string, payload string) Obs {
 		c.close()
 		return Obs{Resp: "write error: " + err.Error()}
 	}
+	t0 := time.Now()
 	payloads, strays, err := c.collect(id)
+	if d := time.Since(t0); d > time.Second && os.Getenv("C17_DEBUG") != "" {
+		fmt.Printf("SLOW-WS %s id=%s %.1fs err=%v payload=%.120q\n", kind, id, d.Seconds(), err, payload)
+	}
 	var o Obs
 	switch {
 	case err != nil:
